@@ -35,23 +35,24 @@ type readEv struct {
 // slice handed to Read is split (the rest is served by the following reads). When the script is
 // exhausted every read times out (after waiting for the read deadline, if one was set).
 type scriptedConn struct {
-	mu         sync.Mutex
-	script     []readEv
-	pending    []byte
-	writeFails bool
-	written    []byte
-	served     []string
-	deadline   time.Time
-	cancel     context.CancelFunc
-	stalled    int
-	serial     bool
-	closed     bool
-	closedErr  bool // i/o errors of the script are reported as wrapping net.ErrClosed
-	quietStall bool // a silent serial line is reported as (0, nil) instead of a deadline error
-	shortWrite bool // the first Write takes all but the last byte
-	writes     int
-	lastErr    error // the error value the last Read returned
-	slowBy     time.Duration
+	mu          sync.Mutex
+	script      []readEv
+	pending     []byte
+	writeFails  bool
+	written     []byte
+	served      []string
+	deadline    time.Time
+	cancel      context.CancelFunc
+	stalled     int
+	serial      bool
+	closed      bool
+	closedErr   bool // i/o errors of the script are reported as wrapping net.ErrClosed
+	quietStall  bool // a silent serial line is reported as (0, nil) instead of a deadline error
+	shortWrite  bool // the first Write takes all but the last byte
+	partialFail bool // a failing Write reports that it took some of the bytes before it failed
+	writes      int
+	lastErr     error // the error value the last Read returned
+	slowBy      time.Duration
 }
 
 func (c *scriptedConn) Write(p []byte) (int, error) {
@@ -60,6 +61,9 @@ func (c *scriptedConn) Write(p []byte) (int, error) {
 	c.written = append(c.written, p...)
 	c.writes++
 	if c.writeFails {
+		if c.partialFail && len(p) > 1 {
+			return len(p) / 2, errInjectedWrite
+		}
 		return 0, errInjectedWrite
 	}
 	if c.shortWrite && c.writes == 1 && len(p) > 1 {
@@ -188,9 +192,21 @@ func (s serialFlush) Flush() error {
 }
 
 type hookRec struct {
-	mu   sync.Mutex
-	log  []string
-	conn *scriptedConn
+	mu     sync.Mutex
+	log    []string
+	conn   *scriptedConn
+	parses int // calls of the (instrumented) parser
+	bps    int // calls of BeforeParse
+}
+
+// instrumented wraps a response parser: the recorder learns when the parser is entered
+func (h *hookRec) instrumented(f func([]byte) (packet.Response, error)) func([]byte) (packet.Response, error) {
+	return func(b []byte) (packet.Response, error) {
+		h.mu.Lock()
+		h.parses++
+		h.mu.Unlock()
+		return f(b)
+	}
 }
 
 func (h *hookRec) BeforeWrite(b []byte) {
@@ -223,7 +239,13 @@ func (h *hookRec) AfterEachRead(b []byte, n int, err error) {
 }
 func (h *hookRec) BeforeParse(b []byte) {
 	h.mu.Lock()
-	h.log = append(h.log, "bp:"+hx(b))
+	if h.parses > h.bps {
+		// the parser of this call has already been entered
+		h.log = append(h.log, "BP-AFTER-THE-PARSER:"+hx(b))
+	} else {
+		h.log = append(h.log, "bp:"+hx(b))
+	}
+	h.bps++
 	h.mu.Unlock()
 }
 
@@ -355,28 +377,43 @@ func variantOf(s string) int {
 }
 
 // newNetClient builds a network client for the framing through one of the public constructors
-func newNetClient(kind string, conf modbus.ClientConfig, variant int) *modbus.Client {
+func newNetClient(kind string, conf modbus.ClientConfig, variant int, rec *hookRec) *modbus.Client {
+	// a parser given by the caller is instrumented: the recorder sees when it is entered (a metrics wrapper)
+	wrap := func(f func([]byte) (packet.Response, error)) func([]byte) (packet.Response, error) {
+		if rec == nil {
+			return f
+		}
+		return rec.instrumented(f)
+	}
 	if kind == "t" {
 		switch variant % 8 {
 		case 1:
 			return modbus.NewClient(conf)
 		case 2:
-			conf.ParseResponseFunc = packet.ParseTCPResponse
+			conf.ParseResponseFunc = wrap(packet.ParseTCPResponse)
 			return modbus.NewClient(conf)
 		case 3:
 			conf.AsProtocolErrorFunc = packet.AsTCPErrorPacket
 			return modbus.NewClient(conf)
 		case 4:
 			conf.AsProtocolErrorFunc = packet.AsTCPErrorPacket
-			conf.ParseResponseFunc = packet.ParseTCPResponse
+			conf.ParseResponseFunc = wrap(packet.ParseTCPResponse)
 			return modbus.NewClient(conf)
 		}
 		return modbus.NewTCPClientWithConfig(conf)
 	}
-	if variant%4 == 1 {
+	switch variant % 6 {
+	case 1:
 		conf.AsProtocolErrorFunc = packet.AsRTUErrorPacketWithCRC
-		conf.ParseResponseFunc = packet.ParseRTUResponseWithCRC
+		conf.ParseResponseFunc = wrap(packet.ParseRTUResponseWithCRC)
 		return modbus.NewClient(conf)
+	case 2:
+		// the RTU constructor given one of the two protocol functions of its own framing: still an RTU client
+		conf.ParseResponseFunc = wrap(packet.ParseRTUResponseWithCRC)
+		return modbus.NewRTUClientWithConfig(conf)
+	case 3:
+		conf.AsProtocolErrorFunc = packet.AsRTUErrorPacketWithCRC
+		return modbus.NewRTUClientWithConfig(conf)
 	}
 	return modbus.NewRTUClientWithConfig(conf)
 }
@@ -433,7 +470,13 @@ func runDoOnce(kind string, hooks bool, flusher string, reqSpec string, script s
 	evs, writeFails, preCancel := parseScript(script)
 	ctx, cancel := context.WithCancel(context.Background())
 	defer cancel()
-	if variantOf("ctx"+reqSpec+script)%2 == 1 {
+	if variantOf("ctx"+reqSpec+script)%3 == 2 {
+		// a context with a deadline far beyond everything else: the client's own read timeout still bounds the wait
+		dctx, dc := context.WithTimeout(context.Background(), time.Hour)
+		ctx, cancel = dctx, dc
+		defer cancel()
+	}
+	if variantOf("ctx"+reqSpec+script)%3 == 1 {
 		// a context cancelled WITH A CAUSE: the call still reports the context's error (ctx.Err()), not the cause
 		cctx, cc := context.WithCancelCause(context.Background())
 		ctx, cancel = cctx, func() { cc(errors.New("operator pressed stop")) }
@@ -449,7 +492,7 @@ func runDoOnce(kind string, hooks bool, flusher string, reqSpec string, script s
 	}
 	conn := &scriptedConn{script: evs, writeFails: writeFails, cancel: cancel, serial: kind == "s",
 		closedErr: variantOf("x"+reqSpec+script)%2 == 1, quietStall: variantOf("q"+reqSpec+script)%2 == 1,
-		shortWrite: kind == "s" && variantOf("sw"+reqSpec+script)%3 == 1}
+		shortWrite: kind == "s" && variantOf("sw"+reqSpec+script)%3 == 1, partialFail: variantOf("pf"+reqSpec+script)%2 == 1}
 	rec := &hookRec{conn: conn}
 	failedConnect := strings.HasPrefix(reqSpec, "ncf:")
 	notConnected := strings.HasPrefix(reqSpec, "nc:") || failedConnect
@@ -529,6 +572,8 @@ func runDoOnce(kind string, hooks bool, flusher string, reqSpec string, script s
 	// complement of this one, followed by an i/o error) must not rewrite it
 	aliased := false
 	secondCall := ""
+	// freshDo makes the same request as the first call of a new client of the same kind on a new transport
+	var freshDo func(evs []readEv) (packet.Response, error)
 	followUp := func(again func() (packet.Response, error)) {
 		takeSnap()
 		if err != nil && scale > 0 && hooks && len(reply) > 0 && clientErrStr(err) == "err ctx" {
@@ -559,6 +604,53 @@ func runDoOnce(kind string, hooks bool, flusher string, reqSpec string, script s
 			rec.mu.Unlock()
 			if hookReads != transportReads {
 				secondCall = fmt.Sprintf("NEXT-CALL-READS-%d-HOOK-HEARD-%d", transportReads, hookReads)
+			}
+			return
+		}
+		if err != nil && scale > 0 && len(reply) > 0 && !notConnected && req != nil && freshDo != nil &&
+			(strings.Contains(clientErrStr(err), "exc") || variantOf("second"+reqSpec+script)%3 == 0) {
+			// the exchange failed; the next exchange on the same client is treated like the first exchange on a new client
+			// (the reply is delivered whole, then the line fails). Timeouts are the machine's business and say nothing.
+			render := func(r packet.Response, e error) string {
+				if e != nil {
+					return clientErrStr(e)
+				}
+				if isNilValue(r) {
+					return "nil-nil"
+				}
+				return "ok " + respStr(r)
+			}
+			second := ""
+			for attempt := 0; attempt < 3; attempt++ {
+				conn.mu.Lock()
+				conn.script = []readEv{{kind: "d", data: append([]byte{}, reply...)}, {kind: "x"}}
+				conn.pending = nil
+				conn.writeFails = false
+				conn.mu.Unlock()
+				var r2 packet.Response
+				var e2 error
+				func() {
+					defer func() {
+						if recover() != nil {
+							e2 = errors.New("PANIC")
+						}
+					}()
+					r2, e2 = again()
+				}()
+				second = render(r2, e2)
+				if !strings.Contains(second, "client:timeout") {
+					break
+				}
+			}
+			fresh := ""
+			for attempt := 0; attempt < 3; attempt++ {
+				fresh = render(freshDo([]readEv{{kind: "d", data: append([]byte{}, reply...)}, {kind: "x"}}))
+				if !strings.Contains(fresh, "client:timeout") {
+					break
+				}
+			}
+			if second != fresh && !strings.Contains(second, "client:timeout") && !strings.Contains(fresh, "client:timeout") {
+				secondCall = "CALL-AFTER-A-FAILED-ONE-DIFFERS-FROM-THE-FIRST-CALL-OF-A-NEW-CLIENT:" + strings.ReplaceAll(second, " ", "_")
 			}
 			return
 		}
@@ -681,6 +773,24 @@ func runDoOnce(kind string, hooks bool, flusher string, reqSpec string, script s
 			} else {
 				c = modbus.NewSerialClient(port, opts...)
 			}
+			freshDo = func(evs2 []readEv) (r packet.Response, e error) {
+				defer func() {
+					if recover() != nil {
+						r, e = nil, errors.New("PANIC")
+					}
+				}()
+				conn2 := &scriptedConn{script: evs2, serial: true, closedErr: conn.closedErr, quietStall: conn.quietStall}
+				var port2 io.ReadWriteCloser
+				switch flusher {
+				case "o":
+					port2 = serialFlush{conn2, false}
+				case "f":
+					port2 = serialFlush{conn2, true}
+				default:
+					port2 = serialNoFlush{conn2}
+				}
+				return modbus.NewSerialClient(port2, modbus.WithSerialReadTimeout(readTimeout)).Do(context.Background(), req)
+			}
 			resp, err = c.Do(ctx, req)
 			followUp(func() (packet.Response, error) { return c.Do(context.Background(), req) })
 			closeHangs = closeBlocks(c.Close)
@@ -698,7 +808,7 @@ func runDoOnce(kind string, hooks bool, flusher string, reqSpec string, script s
 		}
 		// every way of constructing a client of this framing: the WithConfig constructors, and NewClient with none, one
 		// or both protocol functions given (TCP is the documented default of NewClient)
-		c := newNetClient(kind, conf, variantOf(kind+reqSpec+script))
+		c := newNetClient(kind, conf, variantOf(kind+reqSpec+script), rec)
 		if failedConnect {
 			// a Connect that fails although the dial function hands back a connection value: the client stays unconnected
 			failing := conf
@@ -717,6 +827,22 @@ func runDoOnce(kind string, hooks bool, flusher string, reqSpec string, script s
 				err = cerr
 				return
 			}
+		}
+		freshDo = func(evs2 []readEv) (r packet.Response, e error) {
+			defer func() {
+				if recover() != nil {
+					r, e = nil, errors.New("PANIC")
+				}
+			}()
+			conn2 := &scriptedConn{script: evs2, closedErr: conn.closedErr}
+			conf2 := conf
+			conf2.Hooks = nil
+			conf2.DialContextFunc = func(ctx context.Context, address string) (net.Conn, error) { return conn2, nil }
+			c2 := newNetClient(kind, conf2, variantOf(kind+reqSpec+script), nil)
+			if cerr := c2.Connect(context.Background(), "scripted"); cerr != nil {
+				return nil, cerr
+			}
+			return c2.Do(context.Background(), req)
 		}
 		resp, err = c.Do(ctx, req)
 		followUp(func() (packet.Response, error) { return c.Do(context.Background(), req) })
